@@ -54,6 +54,20 @@ Theorem C04_prefetch_walk_total :
 Proof. exact walk_dirs_total. Qed.
 Print Assumptions C04_prefetch_walk_total.
 
+(* prefetch_walk_bounded: the daemon's directory walk and assignIDs visit every directory / entry name at most once, hence at
+   most (number of objects + 1) visits - linear, whatever the child graph (2^40 paths to a directory do not matter). *)
+Theorem C04_prefetch_walk_bounded :
+  forall (s : st) (root : nat) (dirs : list name),
+    walk_dirs s root = Ok dirs -> NoDup dirs /\ length dirs <= S (length (objs s)).
+Proof. intros s root dirs. exact (visit_bounded s _ _ _ root dirs). Qed.
+Print Assumptions C04_prefetch_walk_bounded.
+
+Theorem C04_assignids_bounded :
+  forall (s : st) (root : nat) (ids : list name),
+    assign_ids s root = Ok ids -> NoDup ids /\ length ids <= S (length (objs s)).
+Proof. intros s root ids. exact (visit_bounded s _ _ _ root ids). Qed.
+Print Assumptions C04_assignids_bounded.
+
 (* Memory store end to end: initFields, root lookup, assignIDs and the directory walk on EVERY entry list. *)
 Theorem C04_memory_store_total :
   forall es : list entry, tree_run es <> Panic /\ tree_run es <> OutOfFuel.
@@ -74,6 +88,22 @@ Theorem C04_db_store_total :
   forall es : list entry, db_run es <> Panic /\ db_run es <> OutOfFuel.
 Proof. exact db_run_total. Qed.
 Print Assumptions C04_db_store_total.
+
+(* The TOC as encoding/json delivers it - a decode error, a nil TOC (the text "null"), an entry list with nil entries
+   ("entries":[null]) or any entry list - through parseTOC/initFields/assignIDs/walk: a result or an error. *)
+Theorem C04_toc_json_total :
+  forall d : jdec, json_run d <> Panic /\ json_run d <> OutOfFuel.
+Proof. exact json_run_total. Qed.
+Print Assumptions C04_toc_json_total.
+
+(* Capacity hint of a file's chunk table in initFields, in int64 arithmetic: for every Size and ChunkSize (also
+   Size = MaxInt64 with ChunkSize = 1) the capacity handed to make() is within [1, number of TOC entries]. *)
+Theorem C04_chunk_table_cap_total :
+  forall max_cap size cs nentries : Z,
+    in64 size -> in64 cs -> (1 <= nentries <= max_cap)%Z -> (max_cap < two63)%Z ->
+    chunk_table_cap max_cap size cs nentries <> Panic /\ chunk_table_cap max_cap size cs nentries <> OutOfFuel.
+Proof. exact chunk_table_cap_total. Qed.
+Print Assumptions C04_chunk_table_cap_total.
 
 (* sort.Search as implemented (explicit loop, fuel n+1) with a predicate that does not panic on [0,n): ends, answers in [0,n]. *)
 Theorem C04_sort_search_total :
@@ -197,4 +227,14 @@ Example C04_chunk_nonvacuous :
   /\ db_read_select 50 [(10, 10); (20, 10)]%Z 5 = Err
   /\ esgz_read_select 50 [(0, 10); (10, 10); (20, 10)]%Z 15 = Ok 1%Z
   /\ db_chunk_entry [(0, 10); (10, 10); (20, 10)]%Z 15 = Ok (Some (10, 10)%Z).
+Proof. vm_compute. repeat split. Qed.
+
+(* nil TOC and nil entries are errors; the capacity arithmetic before C04-fix-16 (Size/ChunkSize + 1) wrapped to a negative
+   capacity for Size = MaxInt64, the repaired one gives 1 *)
+Example C04_json_nonvacuous :
+  json_run JNull = Err
+  /\ json_run (JToc [None]) = Err
+  /\ json_run (JToc [Some (mkEntry [0] TReg [])]) = Ok (2, [([0], 1)])
+  /\ chunk_table_cap_before_fix16 1000000 9223372036854775807 1 1 = Panic
+  /\ chunk_table_cap 1000000 9223372036854775807 1 1 = Ok 1%Z.
 Proof. vm_compute. repeat split. Qed.
